@@ -43,7 +43,7 @@ use std::collections::{BTreeMap, HashMap};
 use std::fmt::Write as _;
 use std::io::Write as _;
 
-use embassy_futures::select::{select, select3, Either};
+use embassy_futures::select::{select, select4, Either};
 
 use rs_matter::cert::gen::VALID_FOREVER;
 use rs_matter::cert::{CertRef, MAX_CERT_TLV_AND_ASN1_LEN};
@@ -77,12 +77,14 @@ use rsm_harness::Rng;
 
 const DEV: u16 = 1;
 const CTL: u16 = 2;
+const CTL2: u16 = 3;
 const ADMIN: u64 = 0x1111;
 const DEV_NODE: u64 = 0x2222;
-const BOGUS_NODE: u64 = 0x7000;
 const VENDOR: u16 = 0xFFF1;
 const IPK: [u8; 16] = [7; 16];
 const NROOTS: usize = 5;
+/// the root of the credentials used for resumption attempts: never commissioned on the device
+const RESUME_ROOT: usize = 5;
 
 const CL_GENCOMM: u32 = 0x30;
 const CL_ADMCOMM: u32 = 0x3C;
@@ -105,6 +107,8 @@ struct Root {
 
 struct Base {
     roots: Vec<Root>,
+    /// identities of the resuming peer under RESUME_ROOT: (node id, key, NOC); controller-2 fabric index = position + 1
+    resume_ids: Vec<(u64, CanonPkcSecretKey, Vec<u8>)>,
     /// per init kind: the persisted fabrics (key = fabric index) and their operational public keys
     init: BTreeMap<u8, (BTreeMap<u16, Vec<u8>>, Vec<Vec<u8>>)>,
 }
@@ -153,7 +157,7 @@ fn init_indices(kind: u8) -> Vec<u8> {
 fn make_base() -> Base {
     let crypto = test_only_crypto();
     let mut roots = Vec::new();
-    for r in 0..NROOTS as u64 {
+    for r in 0..NROOTS as u64 + 1 {
         let mut buf = vec![0u8; MAX_CERT_TLV_AND_ASN1_LEN];
         let mut g = RcacGenerator::new(&mut buf);
         let (privkey, cert) = g.generate(&crypto, 10 + r, VALID_FOREVER).unwrap();
@@ -208,7 +212,12 @@ fn make_base() -> Base {
         });
         init.insert(kind, (kv.blobs(), pubkeys));
     }
-    Base { roots, init }
+    let mut resume_ids = Vec::new();
+    for node in [ADMIN, 9, 10] {
+        let (k, noc) = fresh_key_and_noc(&crypto, &roots[RESUME_ROOT].privkey, &roots[RESUME_ROOT].cert, node);
+        resume_ids.push((node, k, noc));
+    }
+    Base { roots, resume_ids, init }
 }
 
 // ------------------------------------------------------------------ case description
@@ -278,8 +287,8 @@ struct Ghost {
     next_inc: u64,
     /// device session unique id -> (name, incarnation, fabric index when the incarnation was assigned)
     sess: HashMap<u32, (u64, u64, u8)>,
-    /// session name -> controller session unique id
-    twin: HashMap<u64, u32>,
+    /// session name -> (which controller, controller session unique id)
+    twin: HashMap<u64, (u8, u32)>,
     next_sid: u64,
     /// resumption id -> record bookkeeping
     recs: Vec<RecGhost>,
@@ -814,6 +823,8 @@ fn run_incarnation(base: &Base, g: &mut Ghost, blobs: &BTreeMap<u16, Vec<u8>>, o
     let kv = MemKv::from_blobs(blobs.clone());
     let dev = e2e::new_matter(det, false);
     let ctl = e2e::new_matter(det, false);
+    // a second controller: the peer that attempts resumptions
+    let ctl2 = e2e::new_matter(det, false);
     let buffers: MatterBuffers = MatterBuffers::new();
     let st = DevState::new(Nets::new());
     use rand::SeedableRng;
@@ -840,6 +851,13 @@ fn run_incarnation(base: &Base, g: &mut Ghost, blobs: &BTreeMap<u16, Vec<u8>>, o
         });
     }
 
+    ctl2.with_state(|state| {
+        let r = &base.roots[RESUME_ROOT];
+        for (node, key, noc) in &base.resume_ids {
+            state.fabrics.add(&crypto, key.reference(), &r.cert, noc, &[], Some(ipk().reference()), VENDOR, *node).unwrap();
+        }
+    });
+
     let d = Dev { dev: &dev, subs: &subs_fn, kv: &kv };
 
     // install a session on both sides; returns nothing, the bookkeeping is updated by `observe`
@@ -852,7 +870,7 @@ fn run_incarnation(base: &Base, g: &mut Ghost, blobs: &BTreeMap<u16, Vec<u8>>, o
             let cid = preset(&ctl, peer_node, DEV_NODE, 1100 + l, 100 + l, DEV, mode_ctl)?;
             // the name the device session is about to get
             let _ = before;
-            g.twin.insert(g.next_sid, cid);
+            g.twin.insert(g.next_sid, (0, cid));
         }
         Ok(())
     };
@@ -876,12 +894,19 @@ fn run_incarnation(base: &Base, g: &mut Ghost, blobs: &BTreeMap<u16, Vec<u8>>, o
     let net = Net::reliable();
     let (d_tx, d_rx) = net.attach(DEV);
     let (c_tx, c_rx) = net.attach(CTL);
+    let (c2_tx, c2_rx) = net.attach(CTL2);
     let responder = Responder::new_default(&dm);
     let g = RefCell::new(g);
     let outs = RefCell::new(outs);
 
     e2e::block_on(async {
-        let device = select3(dev.run(&crypto, d_tx, d_rx, NoNetwork), responder.run::<4>(), ctl.run(&crypto, c_tx, c_rx, NoNetwork)).coalesce();
+        let device = select4(
+            dev.run(&crypto, d_tx, d_rx, NoNetwork),
+            responder.run::<4>(),
+            ctl.run(&crypto, c_tx, c_rx, NoNetwork),
+            ctl2.run(&crypto, c2_tx, c2_rx, NoNetwork),
+        )
+        .coalesce();
 
         let flow = async {
             let mut i = start;
@@ -910,6 +935,7 @@ fn run_incarnation(base: &Base, g: &mut Ghost, blobs: &BTreeMap<u16, Vec<u8>>, o
                     _ => None,
                 };
                 let mut sid = 0u32;
+                let mut which = 0u8;
                 let mut mode = SessionMode::PlainText;
                 let mut sess_inc = 0u64;
                 let mut gone = false;
@@ -935,7 +961,10 @@ fn run_incarnation(base: &Base, g: &mut Ghost, blobs: &BTreeMap<u16, Vec<u8>>, o
                         _ => gone = true,
                     }
                     match g.borrow().twin.get(&name) {
-                        Some(id) => sid = *id,
+                        Some((w, id)) => {
+                            sid = *id;
+                            which = *w;
+                        }
                         None => {
                             if !gone {
                                 gone = true;
@@ -949,13 +978,15 @@ fn run_incarnation(base: &Base, g: &mut Ghost, blobs: &BTreeMap<u16, Vec<u8>>, o
                 }
                 let mut created_inc: Option<u64> = None;
                 let mut sub_inc: Option<u64> = None;
+                // the controller that holds the other end of the session
+                let cx: &Matter<'_> = if which == 1 { &ctl2 } else { &ctl };
                 let status: String = if gone {
                     "gone".into()
                 } else {
                     match &op {
                         Op::Arm(_) | Op::Arm0(_) => {
                             let t: u16 = if matches!(op, Op::Arm(_)) { 60 } else { 0 };
-                            let r = invoke(&ctl, sid, CL_GENCOMM, 0, false, &tlv(|w| {
+                            let r = invoke(cx, sid, CL_GENCOMM, 0, false, &tlv(|w| {
                                 w.u16(&TLVTag::Context(0), t)?;
                                 w.u64(&TLVTag::Context(1), 0)
                             }), false)
@@ -966,7 +997,7 @@ fn run_incarnation(base: &Base, g: &mut Ghost, blobs: &BTreeMap<u16, Vec<u8>>, o
                             let root = *root;
                             // CSRRequest
                             let nonce = [0x5au8; 32];
-                            let r = invoke(&ctl, sid, CL_NOC, 4, false, &tlv(|w| {
+                            let r = invoke(cx, sid, CL_NOC, 4, false, &tlv(|w| {
                                 w.str(&TLVTag::Context(0), &nonce)?;
                                 w.bool(&TLVTag::Context(1), false)
                             }), true)
@@ -981,7 +1012,7 @@ fn run_incarnation(base: &Base, g: &mut Ghost, blobs: &BTreeMap<u16, Vec<u8>>, o
                             }
                             // AddTrustedRootCertificate
                             let cert = &base.roots[root].cert;
-                            let rep = invoke(&ctl, sid, CL_NOC, 11, false, &tlv(|w| w.str(&TLVTag::Context(0), cert)), false).await;
+                            let rep = invoke(cx, sid, CL_NOC, 11, false, &tlv(|w| w.str(&TLVTag::Context(0), cert)), false).await;
                             if matches!(rep, Reply::Status(IMStatusCode::Success)) {
                                 g.borrow_mut().last_root = root;
                             }
@@ -996,7 +1027,7 @@ fn run_incarnation(base: &Base, g: &mut Ghost, blobs: &BTreeMap<u16, Vec<u8>>, o
                                 }
                             };
                             let noc = mint_noc(&crypto, &base.roots[r], &csr, DEV_NODE + r as u64);
-                            let rep = invoke(&ctl, sid, CL_NOC, 6, false, &tlv(|w| {
+                            let rep = invoke(cx, sid, CL_NOC, 6, false, &tlv(|w| {
                                 w.str(&TLVTag::Context(0), &noc)?;
                                 w.str(&TLVTag::Context(2), &IPK)?;
                                 w.u64(&TLVTag::Context(3), ADMIN)?;
@@ -1007,7 +1038,7 @@ fn run_incarnation(base: &Base, g: &mut Ghost, blobs: &BTreeMap<u16, Vec<u8>>, o
                         }
                         Op::UpdNoc(_) => {
                             let nonce = [0x5au8; 32];
-                            let r = invoke(&ctl, sid, CL_NOC, 4, false, &tlv(|w| {
+                            let r = invoke(cx, sid, CL_NOC, 4, false, &tlv(|w| {
                                 w.str(&TLVTag::Context(0), &nonce)?;
                                 w.bool(&TLVTag::Context(1), true)
                             }), true)
@@ -1038,20 +1069,20 @@ fn run_incarnation(base: &Base, g: &mut Ghost, blobs: &BTreeMap<u16, Vec<u8>>, o
                                 }
                             };
                             let noc = mint_noc(&crypto, &base.roots[r], &csr, DEV_NODE + r as u64);
-                            let rep = invoke(&ctl, sid, CL_NOC, 7, false, &tlv(|w| w.str(&TLVTag::Context(0), &noc)), false).await;
+                            let rep = invoke(cx, sid, CL_NOC, 7, false, &tlv(|w| w.str(&TLVTag::Context(0), &noc)), false).await;
                             reply_class(rep, noc_class)
                         }
                         Op::Complete(_) => {
-                            let rep = invoke(&ctl, sid, CL_GENCOMM, 4, false, &[], false).await;
+                            let rep = invoke(cx, sid, CL_GENCOMM, 4, false, &[], false).await;
                             reply_class(rep, gencomm_class)
                         }
                         Op::Remove(_, idx) => {
                             let idx = *idx;
-                            let rep = invoke(&ctl, sid, CL_NOC, 10, false, &tlv(|w| w.u8(&TLVTag::Context(0), idx)), false).await;
+                            let rep = invoke(cx, sid, CL_NOC, 10, false, &tlv(|w| w.u8(&TLVTag::Context(0), idx)), false).await;
                             reply_class(rep, noc_class)
                         }
                         Op::Revoke(_) => {
-                            let rep = invoke(&ctl, sid, CL_ADMCOMM, 2, true, &[], false).await;
+                            let rep = invoke(cx, sid, CL_ADMCOMM, 2, true, &[], false).await;
                             match rep {
                                 Reply::Data(..) => "data?".into(),
                                 Reply::Status(s) => im_class(s),
@@ -1059,7 +1090,14 @@ fn run_incarnation(base: &Base, g: &mut Ghost, blobs: &BTreeMap<u16, Vec<u8>>, o
                             }
                         }
                         Op::Request(_, k) => {
-                            let r = write_acl(&ctl, sid, *k).await;
+                            let r = if wire {
+                                // the device may have dropped or expired the session: no answer comes
+                                let r = e2e::with_timeout(2500, write_acl(cx, sid, *k)).await.unwrap_or_else(|| "err:timeout".to_string());
+                                settle(&dev, &ctl).await;
+                                r
+                            } else {
+                                write_acl(cx, sid, *k).await
+                            };
                             if r.starts_with("err:") {
                                 if wire {
                                     "gone".into()
@@ -1070,9 +1108,14 @@ fn run_incarnation(base: &Base, g: &mut Ghost, blobs: &BTreeMap<u16, Vec<u8>>, o
                                 r
                             }
                         }
+                        Op::Subscribe(_) if mode.fab_idx() == 0 => {
+                            // a subscribe request on a session without fabric makes the handler fail
+                            // without an answer (the peer runs into its receive timeout): not sent
+                            "fail".into()
+                        }
                         Op::Subscribe(_) => {
                             let tag = g.borrow().next_sub;
-                            let r = subscribe(&ctl, sid, tag).await;
+                            let r = subscribe(cx, sid, tag).await;
                             if r.is_ok() {
                                 // the device commits (and persists) the subscription after it has sent
                                 // the SubscribeResponse
@@ -1201,7 +1244,7 @@ fn run_incarnation(base: &Base, g: &mut Ghost, blobs: &BTreeMap<u16, Vec<u8>>, o
                                     let after = session_ids(&ctl);
                                     if let Some(cid) = after.iter().find(|i| !before.contains(i)) {
                                         let name = g.borrow().next_sid;
-                                        g.borrow_mut().twin.insert(name, *cid);
+                                        g.borrow_mut().twin.insert(name, (0, *cid));
                                     }
                                     "ok".to_string()
                                 }
@@ -1229,19 +1272,44 @@ fn run_incarnation(base: &Base, g: &mut Ghost, blobs: &BTreeMap<u16, Vec<u8>>, o
                             Some(_) if acceptable != Some(true) && !wire => "refused".to_string(),
                             Some(_) if full => "nospace".to_string(),
                             Some(rec) => {
-                                // the peer that holds this record: its copy of the resumption state
+                                // the peer that holds this record: its copy of the resumption state.
+                                // It names the device by the node id the device has on the record's
+                                // fabric index now (the session nonces carry the node ids), and uses
+                                // credentials under a root that is never commissioned on the device:
+                                // the destination id names no fabric of the device, so if the device
+                                // declines the resumption, the full handshake it falls back to fails.
                                 let attempt = {
                                     let mut gb = g.borrow_mut();
                                     gb.resume_attempts += 1;
                                     gb.resume_attempts
                                 };
-                                let bogus = BOGUS_NODE + attempt;
+                                let dev_node = dev.with_state(|state| {
+                                    state
+                                        .resumption
+                                        .iter()
+                                        .find(|r| r.resumption_id.reference().access()[..] == rec.rid[..])
+                                        .and_then(|r| state.fabrics.get(r.fab_idx))
+                                        .map(|f| f.node_id())
+                                        .unwrap_or(DEV_NODE)
+                                });
+                                let bogus = dev_node;
+                                // the resuming peer's own node id is the one in the record (it is part of
+                                // the session nonces); unknown node ids get the administrator's identity
+                                let rec_node = dev.with_state(|state| {
+                                    state
+                                        .resumption
+                                        .iter()
+                                        .find(|r| r.resumption_id.reference().access()[..] == rec.rid[..])
+                                        .map(|r| r.peer_nodeid)
+                                        .unwrap_or(ADMIN)
+                                });
+                                let cfab_no = base.resume_ids.iter().position(|x| x.0 == rec_node).unwrap_or(0) as u8 + 1;
                                 let mut rid = CryptoSensitive::<16>::new();
                                 rid.load_from_array(&rec.rid);
                                 let mut secret = CanonPkcSharedSecret::new();
                                 secret.try_load_from_slice(&rec.secret).unwrap();
-                                let cfab = NonZeroU8::new(1).unwrap();
-                                ctl.with_state(|state| {
+                                let cfab = NonZeroU8::new(cfab_no).unwrap();
+                                ctl2.with_state(|state| {
                                     state.resumption.insert_or_update(ResumableSession {
                                         fab_idx: cfab,
                                         peer_nodeid: bogus,
@@ -1250,25 +1318,23 @@ fn run_incarnation(base: &Base, g: &mut Ghost, blobs: &BTreeMap<u16, Vec<u8>>, o
                                         shared_secret: secret,
                                     });
                                 });
-                                let before = session_ids(&ctl);
+                                let before = session_ids(&ctl2);
                                 let before_dev = session_ids(&dev);
-                                // the destination id names no fabric of the device (unknown node id): if the
-                                // device declines the resumption, the full handshake it falls back to fails
-                                let res = e2e::with_timeout(if wire { 3000 } else { 15000 }, case_handshake(&ctl, cfab, bogus, attempt)).await;
-                                settle(&dev, &ctl).await;
+                                let res = e2e::with_timeout(if wire { 3000 } else { 15000 }, case_handshake(&ctl2, cfab, bogus, attempt)).await;
+                                settle(&dev, &ctl2).await;
                                 remove_plaintext(&dev);
-                                remove_plaintext(&ctl);
-                                ctl.with_state(|state| state.resumption.remove_by_peer(cfab, bogus));
+                                remove_plaintext(&ctl2);
+                                ctl2.with_state(|state| state.resumption.remove_by_peer(cfab, bogus));
                                 let dev_new = session_ids(&dev).iter().any(|i| !before_dev.contains(i));
                                 if std::env::var("C07_DEBUG").is_ok() {
                                     eprintln!("resume {}: {:?} dev_new={}", k, res.as_ref().map(|r| r.as_ref().map_err(|e| e.code())), dev_new);
                                 }
                                 match res {
                                     Some(Ok(())) if dev_new => {
-                                        let after = session_ids(&ctl);
+                                        let after = session_ids(&ctl2);
                                         if let Some(cid) = after.iter().find(|i| !before.contains(i)) {
                                             let name = g.borrow().next_sid;
-                                            g.borrow_mut().twin.insert(name, *cid);
+                                            g.borrow_mut().twin.insert(name, (1, *cid));
                                         }
                                         created_inc = Some(rec.inc);
                                         "ok".to_string()
@@ -1310,7 +1376,7 @@ fn run_incarnation(base: &Base, g: &mut Ghost, blobs: &BTreeMap<u16, Vec<u8>>, o
             Next::Done
         };
 
-        match select(core::pin::pin!(device), core::pin::pin!(e2e::with_timeout(60_000, flow))).await {
+        match select(core::pin::pin!(device), core::pin::pin!(e2e::with_timeout(if wire { 90_000 } else { 30_000 }, flow))).await {
             Either::First(r) => {
                 outs.borrow_mut().push(format!("transport-exit:{:?}", r.map_err(|e| e.code())));
                 Next::Done
@@ -1499,9 +1565,9 @@ fn generate(tier: &str, seed: u64) -> Vec<String> {
         // most sequences start with a commissioning in progress
         if pase && rng.chance(3, 5) {
             v.push("A1".into());
-            v.push(format!("N1:{}", 2 + rng.below(3)));
+            v.push(format!("N1:{}", 2 + rng.below(2)));
             if rng.chance(4, 5) {
-                v.push(format!("E{}", 2 + rng.below(3)));
+                v.push(format!("E{}", 2 + rng.below(2)));
                 nsess += 1;
                 created += 1;
                 nrec += 1;
@@ -1512,7 +1578,7 @@ fn generate(tier: &str, seed: u64) -> Vec<String> {
             let can_create = created < 9;
             let t = match rng.below(48) {
                 0..=3 => format!("A{}", s),
-                4..=7 => format!("N{}:{}", s, rng.below(5)),
+                4..=7 => format!("N{}:{}", s, rng.below(4)),
                 8 => format!("U{}", s),
                 9..=11 => format!("K{}", s),
                 12..=15 => format!("R{}:{}", s, rng.pick(&idxs)),
